@@ -47,6 +47,9 @@ var translationUnits = []tunit{
 		{"internal/server/authz.go", "matches"},
 		{"internal/server/authz.go", "ExtAuthZFilter.Check"},
 	}, vars: []tfunc{{"internal/server/authz.go", "allow"}, {"internal/server/authz.go", "deny"}}},
+	{module: "CodeInternal", funcs: []tfunc{
+		{"internal/boolstr.go", "BoolStrValue"},
+	}},
 	{module: "CodeOidc", imports: []string{"AuthModel.Generated.CodeHttp"}, funcs: []tfunc{
 		{"internal/authz/oidc.go", "getCookieName"},
 		{"internal/authz/oidc.go", "getCookieDirectives"},
@@ -72,7 +75,7 @@ var typeTable = map[string]string{
 	"*oidcv1.OIDCConfig": "Pb.OIDCConfig", "*idpTokensResponse": "Pb.IdpTokensResponse",
 	"*oidc.TokenResponse": "Pb.TokenResponse", "*oidcHandler": "Pb.OidcHandler",
 	"*envoy.CheckResponse": "Pb.CheckResponse", "authz.Handler": "Pb.Handler", "*ExtAuthZFilter": "Pb.ExtAuthZFilter",
-	"*status.Status": "Pb.Status", "codes.Code": "Int",
+	"*status.Status": "Pb.Status", "codes.Code": "Int", "*structpb.Value": "Pb.Value",
 }
 
 var zeroTable = map[string]string{
@@ -102,6 +105,7 @@ var libTable = map[string]libfn{
 	"strings.TrimSpace": {"Str.trimSpace", false, "string"},
 	"strings.EqualFold": {"Go.equalFold", false, "bool"},
 	"len":               {"Go.len", false, "int"},
+	"strconv.ParseBool": {"Go.parseBool", false, ""},
 }
 
 // results of zero-argument methods and fields that are strings (to tell + on strings from + on ints)
